@@ -152,6 +152,9 @@ def parseEvR : List String → Option EvR
   | ["sync", "none"] => some (.syncMode .none)
   | ["sync", "ok"] => some (.syncMode .ok)
   | ["sync", "fail"] => some (.syncMode .fail)
+  | ["ckind", "cancelled"] => some (.cancelMode .cancelled)
+  | ["ckind", "connecting"] => some (.cancelMode .connecting)
+  | ["ckind", "other"] => some (.cancelMode .other)
   | ws => (parseEv ws).map .flat
 
 open Afkak.BrokerClientR in
@@ -181,6 +184,7 @@ def flatOf : EvR → Option Ev
   | .flat e => some e
   | .stubborn _ => none
   | .syncMode _ => none
+  | .cancelMode _ => none
 
 def showReq (r : Req) : String :=
   s!"{r.serial}:{r.id}:{if r.expect then 1 else 0}{if r.sent then 1 else 0}{if r.cancelled then 1 else 0}"
@@ -200,9 +204,20 @@ end BC
 namespace BS
 open Afkak.Bootstrap
 
+def showReason : Reason → String
+  | .done => "done"
+  | .lost => "lost"
+  | .other => "other"
+
+def parseReason : String → Option Reason
+  | "done" => some .done
+  | "lost" => some .lost
+  | "other" => some .other
+  | _ => none
+
 def showRes : Res → String
   | .ok b => s!"ok {toHex b}"
-  | .connLost => "err connLost"
+  | .connLost r => s!"err connLost {showReason r}"
   | .cancelled => "err cancelled"
 
 def showOb : Ob → String
@@ -217,7 +232,8 @@ def parseEv : List String → Option Ev
   | ["bs-request", h] => do some (.request (← parseHex h))
   | ["bs-cancel", k] => do some (.cancel (← k.toNat?))
   | ["bs-bytes", h] => do some (.bytesIn (← parseHex h))
-  | ["bs-lost"] => some .lost
+  | ["bs-lost", r] => do some (.lost (← parseReason r))
+  | ["bs-lost"] => some (.lost .done)   -- replay files written before the reason was an argument
   | _ => none
 
 def parseOb : List String → Option Ob
@@ -225,7 +241,7 @@ def parseOb : List String → Option Ob
   | ["writeLost", k] => do some (.writeLost (← k.toNat?))
   | ["lose"] => some .lose
   | ["fire", k, "ok", h] => do some (.fire (← k.toNat?) (.ok (← parseHex h)))
-  | ["fire", k, "err", "connLost"] => do some (.fire (← k.toNat?) .connLost)
+  | ["fire", k, "err", "connLost", r] => do some (.fire (← k.toNat?) (.connLost (← parseReason r)))
   | ["fire", k, "err", "cancelled"] => do some (.fire (← k.toNat?) .cancelled)
   | ["raise", "assert"] => some .raiseAssert
   | ["badOp"] => some .badOp
@@ -283,7 +299,7 @@ def flatPrefix : List (Afkak.BrokerClientR.EvR × List Afkak.BrokerClientR.ObR) 
   | t :: ts =>
     if t.2.any (fun o => match o with | .hookBegin _ => true | _ => false) then ([], false)
     else match t.1 with
-      | .stubborn false | .syncMode .none => flatPrefix ts
+      | .stubborn false | .syncMode .none | .cancelMode _ => flatPrefix ts
       | e => match BC.flatOf e with
         | none => ([], false)
         | some fe => let r := flatPrefix ts; ((fe, Afkak.BrokerClientR.plain t.2) :: r.1, r.2)
@@ -307,6 +323,19 @@ def step (st : DSt) (line : String) : DSt × List String :=
       ({ st with frBuf := f.buf },
        f.frames.map (fun b => s!"frame {toHex b}") ++ (if f.exceeded then ["exceeded"] else []) ++ [s!"buffered {f.buf.length}"])
     | none => (st, ["bad-op"])
+  | "mon-genuine" :: ws =>
+    -- ws = chunk₁ packets₁ chunk₂ packets₂ …; packetsᵢ = "." (none) or hex,hex,… ("-" = the empty packet)
+    let rec pairs : List String → Option (List (Bytes × List Bytes))
+      | [] => some []
+      | c :: p :: rest => do
+        let cb ← parseHex c
+        let ps ← if p == "." then some [] else (p.splitOn ",").mapM parseHex
+        let r ← pairs rest
+        some ((cb, ps) :: r)
+      | _ => none
+    match pairs ws with
+    | some tr => (st, verdict (Afkak.Monitor.C06.framesGenuineFirstBad [] 0 tr))
+    | none => (st, ["bad-op"])
   | ["bc-new", h, p, pol] => match h.toNat?, p.toNat?, BC.parseRats pol with
     | some h, some p, some pol =>
       ({ st with policy := pol, host := h, port := p, bc := Afkak.BrokerClient.St.init h p, bcTr := [],
@@ -314,7 +343,7 @@ def step (st : DSt) (line : String) : DSt × List String :=
     | _, _, _ => (st, ["bad-op"])
   | ["bc-state"] => (st, [BC.showSt st.bcR.core])
   | ["bs-new"] => ({ st with bs := Afkak.Bootstrap.St.init, bsTr := [] }, ["ok"])
-  | "bs-request" :: _ | "bs-cancel" :: _ | "bs-bytes" :: _ | ["bs-lost"] => match BS.parseEv (words line) with
+  | "bs-request" :: _ | "bs-cancel" :: _ | "bs-bytes" :: _ | "bs-lost" :: _ => match BS.parseEv (words line) with
     | some e => bsStep st e
     | none => (st, ["bad-op"])
   | ["t-new", h, p, pol] => match h.toNat?, p.toNat?, BC.parseRats pol with
@@ -377,7 +406,7 @@ def step (st : DSt) (line : String) : DSt × List String :=
          r.2.map BC.showObR ++ (if same then [] else ["flat-mismatch " ++ " ; ".intercalate (fr.2.map BC.showOb)]))
       | none =>
         -- switching off an environment option that is off is a flat no-op
-        let noop := match e with | .stubborn false => true | .syncMode .none => true | _ => false
+        let noop := match e with | .stubborn false => true | .syncMode .none => true | .cancelMode _ => true | _ => false
         ({ st1 with flatOk := st.flatOk && noop }, r.2.map BC.showObR)
     | none => (st, ["bad-op"])
 
